@@ -407,8 +407,13 @@ PROPS = {
         "assumptions": ["data-hash collision appears as a disjunct of C03_bytes_function", "concurrency beyond interleaved add_data calls on one thread is not exercised"],
     },
     "C01": {
-        "modules": ["XetProps.C01"],
-        "theorems": ["Xet.Dedup.C01_inv_init", "Xet.Dedup.C01_inv_step", "Xet.Dedup.C01_inv_calls", "Xet.Dedup.C01_inv_spelled",
+        "modules": ["XetProps.C01", "XetProps.C01EndToEnd"],
+        "theorems": ["Xet.E2E.C01_end_to_end", "Xet.E2E.C01_end_to_end_canonical", "Xet.E2E.C01_end_to_end_empty",
+                     "Xet.E2E.C01_e2e_core", "Xet.E2E.C01_e2e_chunker_link", "Xet.E2E.C01_e2e_cleaner_calls",
+                     "Xet.E2E.C01_e2e_cleaner_refines", "Xet.E2E.C01_e2e_fetch_bytes", "Xet.E2E.C01_e2e_local_range",
+                     "Xet.E2E.C01_e2e_response_plan", "Xet.E2E.C01_e2e_response_exists", "Xet.E2E.C01_e2e_puts_provenance",
+                     "Xet.E2E.C01_e2e_production_sizes", "Xet.E2E.C01_e2e_empty_stream", "Xet.E2E.ex_end_to_end",
+                     "Xet.Dedup.C01_inv_init", "Xet.Dedup.C01_inv_step", "Xet.Dedup.C01_inv_calls", "Xet.Dedup.C01_inv_spelled",
                      "Xet.Dedup.C01_finalize", "Xet.Dedup.C01_merge_in", "Xet.Dedup.C01_agg_finalize",
                      "Xet.Dedup.C01_roundtrip", "Xet.Dedup.C01_range", "Xet.Dedup.C01_range_is_slice",
                      "Xet.Dedup.rangeBytes_eq", "Xet.Dedup.truthful_hash_to_data"],
@@ -417,7 +422,13 @@ PROPS = {
                       "data-truthful oracle, over every history of interleaved files and completions followed by finish: each file's segments resolve "
                       "(in the store plus the xorbs this session cut) to exactly the chunks fed; preserved by continue-merge, new segment, local "
                       "self-reference, rejection, cuts (patching exactly the internal refs), merge_in's shift and DataAggregator::finalize. Hence every "
-                      "finished file's record downloads to the fed bytes and every byte range to the corresponding slice. Tied to the Rust by real "
+                      "finished file's record downloads to the fed bytes and every byte range to the corresponding slice. Composition at byte level "
+                      "(C01EndToEnd, C04 + C01 + C07 + C17 composed): for every finished file whose chunks are the chunker model's output for ANY "
+                      "partition of its bytes, on a blob store holding CasObject::serialize of every xorb under ANY per-chunk compression schemes, "
+                      "for EVERY reconstruction response a correct server can derive from the file's record (whole file or any byte range, any "
+                      "window of terms containing it, any fetch ranges containing their terms) and any faithful chunk cache, both downloader "
+                      "writers (sequential; parallel in every completion order) produce exactly the fed bytes resp. the slice and report the "
+                      "number of bytes written; the server's response shape is the one recorded assumption and is shown satisfiable. Tied to the Rust by real "
                       "sessions on a local store (several sessions per store, five [eleven] limit configurations): every file downloaded whole and by "
                       "range after each session, and the model replays each session (chunker + dedup + aggregation) and reproduces pointers, puts, "
                       "records and metrics exactly. Partial: concurrency beyond interleaved add_data calls and the HTTP path are not modelled here "
@@ -430,7 +441,10 @@ PROPS = {
                 "distinct by hash of the session op; non-trivial = non-empty session",
         "assumptions": ["oracle answers are data-truthful (C05 + no data-hash collision: truthful_hash_to_data is in collision-extraction form)",
                         "StoreConsistent / NoZeroName on the final store (C06 collision-freeness, extraction form)",
-                        "every chunk has at least one byte (C04_bounds_all)"],
+                        "every chunk has at least one byte (C04_bounds_all)",
+                        "end-to-end: the reconstruction response is produced by the CAS server, outside xet-core; assumed shape ServerResponse (one term per record segment = (xorb, chunk range, unpacked bytes); a window of consecutive terms containing the requested range with the offset into the first; fetch ranges inside the xorb containing their terms)",
+                        "end-to-end: LZ4 codec round trip (Codec.RoundTrip), stored objects and their content < 2^32 bytes (u32 footer fields), chunks of the prior store 1..MAXIMUM_CHUNK_SIZE bytes, every chunk fed in the session <= MAXIMUM_CHUNK_SIZE",
+                        "end-to-end: a chunk-cache hit returns the term's bytes (CacheFaithful, C12's conclusion)"],
     },
     "C02": {
         "modules": ["XetProps.C02"],
